@@ -7,6 +7,7 @@ import (
 	"fmt"
 	"math/big"
 	"os"
+	"runtime"
 	"syscall"
 	"unsafe"
 
@@ -63,6 +64,13 @@ func limbsToBytes(dst []byte, l []uint64) {
 // 1 affine (15 x 64 bytes, 8 limbs).
 func runLookups(r *mon.Run) {
 	pointSize, affineSize, elemSize := hk.Layout()
+	if runtime.GOARCH != "amd64" {
+		// no assembly on this target: the portable lookups are plain bounds-checked Go, and the
+		// raw-memory harness below is laid out for the amd64 struct sizes.  The lookups are still
+		// exercised on this target through the cross-build transcript and C05's multiplications.
+		r.Note(fmt.Sprintf("raw-memory lookup monitor skipped on GOARCH=%s (Point %d bytes, affine point %d bytes); the transcript monitor runs", runtime.GOARCH, pointSize, affineSize))
+		return
+	}
 	if pointSize != 104 || affineSize != 64 || elemSize != 32 {
 		r.Inconclusive("unexpected memory layout: Point %d bytes, affine point %d bytes, element %d bytes (lookup monitors assume 104/64/32)", pointSize, affineSize, elemSize)
 		return
